@@ -184,7 +184,7 @@ const (
 // racyPoint: in racy mode every access to shared memory made by code of the scoped packages is a
 // scheduling point (used where a property is about unsynchronised access).
 func (m *Machine) racyPoint(fr *frame) {
-	if m.racyScope == "" || len(m.gs) < 2 || m.preempts >= m.opts.Preempt {
+	if m.racyScope == "" || m.schedOff || len(m.gs) < 2 || m.preempts >= m.opts.Preempt {
 		return
 	}
 	if fr.racy == 0 {
